@@ -138,14 +138,14 @@ def run(ctx):
         return job
 
     def j_deep(c):
-        deep = c.tlc_gen("Variables", "Gen_Variables.tla", "Gen_sim.cfg", simulate=(10 if ctx.quick() else 60, 30), timeout=600,
+        deep = c.tlc_gen("Variables", "Gen_Variables.tla", "Gen_sim.cfg", simulate=(7 if ctx.quick() else 60, 30), timeout=600,
                          workers=1)       # one worker + fixed seed: the same walks every time (about 280 walks per "num")
         deep.sort(key=lambda b: json.dumps(b, sort_keys=True))
         run_scripts(c, exe, deep, "gensim", 3)
         return deep[0][:8]
 
     def j_random(c):
-        nexec, nops = (1200, 40) if ctx.quick() else (8000, 60)
+        nexec, nops = (1000, 40) if ctx.quick() else (8000, 60)
         tr = c.tmp("random.ndjson")
         validate(c, exe, ["random", ctx.seed, nexec, nops, tr], tr, "random histories")
         return [json.loads(x) for x in vlib.read_lines(tr, 1, 3)]
